@@ -1059,18 +1059,23 @@ func (d *indexData) newMatchTree(q query.Q, opt matchTreeOpt) (matchTree, error)
 		}, err
 
 	case *query.Type:
-		if s.Type != query.TypeFileName {
-			break
-		}
+		switch s.Type {
+		case query.TypeFileMatch:
+			// The default result type: it selects and reports what its child does.
+			return d.newMatchTree(s.Child, opt)
+		case query.TypeFileName:
+			ct, err := d.newMatchTree(s.Child, opt)
+			if err != nil {
+				return nil, err
+			}
 
-		ct, err := d.newMatchTree(s.Child, opt)
-		if err != nil {
-			return nil, err
+			return &fileNameMatchTree{
+				child: ct,
+			}, nil
 		}
-
-		return &fileNameMatchTree{
-			child: ct,
-		}, nil
+		// type:repo is evaluated by the sharded searcher before a query reaches
+		// a shard.
+		return nil, fmt.Errorf("unsupported query type %d in %s", s.Type, s)
 
 	case *query.Boost:
 		ct, err := d.newMatchTree(s.Child, opt)
